@@ -36,7 +36,7 @@ def preload():
     import cirq  # noqa
     from tangelo.algorithms.variational import VQESolver  # noqa
     cirqstub.self_check()
-    for k in ("H2", "H4f", "H2+"):
+    for k in ("H2", "H4f", "H2+", "H4"):
         mol(k)
 
 
@@ -334,6 +334,30 @@ def h_userop(env, opts, patt, n, kind):
     env.check_eq(e, R.expectation(st, n, terms_before), "energy_estimation after operator_expectation == <psi|H|psi> of the solver's own Hamiltonian")
 
 
+def h_symmetry_hcb(env, key, which):
+    """pUCCD under the hard-core-boson encoding (one qubit per electron PAIR): every basis state is a closed-shell determinant,
+    so N = 2 * (number of occupied qubits), S_z = 0 and S^2 = 0 on every state the circuit can prepare"""
+    from tangelo.algorithms.variational import BuiltInAnsatze
+    molecule = mol(key)
+    try:
+        s = make_solver(env, dict(molecule=molecule, ansatz=BuiltInAnsatze.pUCCD, qubit_mapping="hcb"))
+        k = s.ansatz.n_var_params
+        th = vec(env, "th", ("ss" + "p" * k)[:k])
+        with sym_alloc(env):
+            H_before = s.qubit_hamiltonian
+            val = s.operator_expectation(which, th)
+            n = s.ansatz.circuit.width
+            st = full_circuit_state(s, n)
+    finally:
+        c02._restore()
+    env.check_true(s.qubit_hamiltonian is H_before, "target Hamiltonian restored after operator_expectation")
+    want = R.C(0)
+    if which == "N":
+        for idx, a in enumerate(st):
+            want = want + 2 * bin(idx).count("1") * a * R.n_conj(a)
+    env.check_eq(val, want, f"operator_expectation('{which}') under HCB == value on the paired (seniority-zero) state")
+
+
 def h_refstate(env, patt):
     """solver given a reference-state override: the symmetry expectation must refer to the same state as the energy"""
     from tangelo.algorithms.variational import BuiltInAnsatze
@@ -437,5 +461,8 @@ def shapes(tier, seed):
             out.append(Shape(f"userop/{kind}/H2/{mp}/utd={int(utd)}", h_userop,
                              dict(opts=dict(molecule_key="H2", qubit_mapping=mp, up_then_down=utd, ansatz=BuiltInAnsatze.UCCSD), patt="ss", n=4, kind=kind),
                              modules=MODS, max_paths=64))
+    for key in ("H2",) + (("H4",) if tier == "thorough" else ()):
+        for which in ("N", "Sz", "S^2"):
+            out.append(Shape(f"symmetry/{which}/{key}/hcb-puccd", h_symmetry_hcb, dict(key=key, which=which), modules=MODS, max_paths=64))
     out.append(Shape("refstate/uccsd/H2/jw", h_refstate, dict(patt="ss"), modules=MODS, max_paths=64))
     return out
